@@ -141,7 +141,7 @@ impl ZbsdiffBuilder {
                 control_entries.push(ControlEntry::new(
                     0,
                     extra_chunk_size as i64,
-                    old_pos as i64, // Seek to maintain position tracking
+                    0, // Seeks are relative and old_pos does not move here
                 ));
 
                 new_pos += extra_chunk_size;
